@@ -60,8 +60,10 @@ class RelayPool(Relay):
 
     def _remove_client(self, client):
         self.pool.remove(client)
-        if len(self.queue) > 0 and not self.pool:
-            self._add_client()
+        if len(self.queue) > 0:
+            # The clients that remain may never poll again (no connection
+            # reuse): a waiting request gets a client for the freed slot.
+            self._check_idle()
 
     def _add_client(self):
         client = self.add_client()
